@@ -113,6 +113,12 @@ def kind_term(s):
         return "(KChallenge %d)" % s["rcookie"]
     if k == "resp":
         return "(KResponse %d)" % s["rcookie"]
+    if k == "drop":
+        return "KDrop"
+    if k == "ack":
+        return "KAck"
+    if k == "hs":
+        return "KHandshake"
     return "KUnknown"
 
 
@@ -372,4 +378,30 @@ def run(chk):
         where, out = getattr(chk, "proof_error", ("?", ""))
         if not found_input:
             chk.broken("proof obligation Properties/C15.v no longer checks (%s)" % where, out)
-    chk.finish(level="proof", rule="", assumptions=[])
+    chk.finish(
+        level="proof",
+        rule="manager: random operation sequences (10-60 ops over 5 addresses incl. nil; clock jumps 0/1ns/300ms/500ms/"
+             "999ms/1s-1ns/1s/1s+1ns/1001ms/2s; byte counts up to MaxInt64 and counter presets around MaxUint64/3 and "
+             "MaxUint64) on rrc.Manager under synctest, every result and the whole paths map compared after every op; "
+             "non-trivial = some Reserve/response accepted and some refused and a clock jump; distinct by the full op "
+             "sequence. e2e: real handshakes (DTLS 1.2 PSK GCM/CCM8/CBC, DTLS 1.3 certificate) for ID-generator length "
+             "pairs {0,1,4,8}^2 plus none/120, both roles, also IDs-without-RRC; scripted source addresses, replays, "
+             "stale records, two candidates, late/misdirected/stale responses, altered or missing connection IDs; "
+             "non-trivial = at least one RRC record emitted and one record from a non-active address that caused "
+             "none; distinct by configuration and full script. router: generated record lists incl. bad versions and "
+             "truncation; non-trivial = an ID found behind at least one skipped record.",
+        assumptions=[
+            "an ERecord event of Rrc/C15Conn.v is a record for which conn.go prepareIncomingPacket succeeded; that only "
+            "the key holder can produce such records is C05 (AEAD) and not re-proved here",
+            "the path challenge cookie is an input of the model (crypto/rand in the code): the theorems say the response "
+            "must carry the cookie of the pending challenge of that address, not that the cookie is unguessable",
+            "addresses are identified by Network()+NUL+String() (rrc.pathKey); net.Addr values whose strings contain NUL "
+            "are not modelled",
+            "time is an explicit clock argument; the per-path AfterFunc callback is an explicit operation that may run at "
+            "any time (theorems hold for every scheduling); synctest runs callbacks exactly at expiry, which is what the "
+            "harness compares against",
+            "listener.getConn is modelled structurally (Rrc/C15Router.v get_conn) and only cidDatagramRouter (DTLS 1.2 "
+            "branch) is tied to the implementation; the loopback-UDP listener leg of DESIGN.md is not implemented",
+            "end-to-end classification of records opens them with the receiver's own keys/functions in-package "
+            "(CipherSuite.Decrypt, openCiphertextRecord), which are read-only",
+        ])
